@@ -20,7 +20,7 @@ VARIABLE l
 MInit == l = 1 /\ MarkInit
 
 Obs(e) == [T |-> e.T, I |-> e.I, start |-> e.start, pings |-> e.pings,
-           closed |-> e.closed, userClose |-> e.userClose, left |-> e.left, exit |-> e.exit]
+           closed |-> e.closed, userClose |-> e.userClose, kaAlive |-> e.kaAlive, left |-> e.left, exit |-> e.exit]
 
 \* code-shaped expectation (strict): exported by TLC in units of I / e.exp.unit
 U(e) == e.I \div e.exp.unit
